@@ -34,6 +34,7 @@ import (
 
 	"github.com/refraction-networking/conjure/internal/verifhook"
 	"github.com/refraction-networking/conjure/pkg/core"
+	"github.com/refraction-networking/conjure/pkg/phantoms"
 	"github.com/refraction-networking/conjure/pkg/station/geoip"
 	"github.com/refraction-networking/conjure/pkg/station/log"
 	pb "github.com/refraction-networking/conjure/proto"
@@ -148,6 +149,7 @@ type c9Result struct {
 	MapsInSync  bool           `json:"maps_in_sync"`
 	Panics      []string       `json:"panics"`
 	StressKind  string         `json:"stress_kind"`
+	Adds        int64          `json:"adds"`
 }
 
 // ---------------------------------------------------------------- fixtures
@@ -829,8 +831,25 @@ func c9RunStress(c c9Case) (res c9Result) {
 			}
 		}()
 	}
-	// reloads
+	// reloads, with a goroutine that parses registrations (phantom selection, GeoIP lookups) meanwhile
 	if c.Reloads && len(confs) > 1 {
+		os.Setenv("PHANTOM_SUBNET_LOCATION", "./test/phantom_subnets.toml")
+		if sel, err := phantoms.NewPhantomIPSelector(); err == nil {
+			rm.PhantomSelector = sel
+			bg.Add(1)
+			go func() {
+				defer bg.Done()
+				for i := 0; ; i++ {
+					select {
+					case <-stop:
+						return
+					default:
+					}
+					guard(func() { _, _ = rm.parseRegMessage(c9Wire(i % 64)) })
+					time.Sleep(100 * time.Microsecond)
+				}
+			}()
+		}
 		bg.Add(1)
 		go func() {
 			defer bg.Done()
@@ -883,6 +902,7 @@ func c9RunStress(c c9Case) (res c9Result) {
 	}
 	res.MapsInSync = n == len(rd.decoysTimeouts)
 	rd.m.RUnlock()
+	res.Adds = atomic.LoadInt64(&rm.newRegistrations)
 	sort.Ints(res.TrackedKeys)
 	sort.Ints(res.ValidKeys)
 	return res
